@@ -21,6 +21,11 @@
 //                              extension (gro, xyz, pdb, dlph); the checker parses the text
 //   gread <file>               one-bead topology, real reader chosen by the extension, FirstFrame:
 //                                                                               gobs pos|vel|frc|box a b c
+//   xyzcw <file> <x y z>       two atoms (bohr) in a generic container through XYZWriter::Write(container, header)
+//                              -> <file>.xyz and PDBWriter::WriteContainer -> <file>.pdb (the checker parses the text)
+//   xyzcr <file>               XYZReader::ReadFile(container) (bohr) and, same file, ReadTopology (nm): gobs atoms|top x y z
+//   boltznew <n1> <n2>         BondedStatistics over n1 bonds of 1.0 nm and n2 bonds of 2.0 nm + ONE TabulatedPotential
+//   boltztab <file> <T> <n>    "tab set T", "tab set n", "tab <file> *" on that object; rows: brow <x> <U> <F>
 //   exprs                      products of header constants used in the sources: expr <name> <value>
 //   radii <symbol>             getCovRad(ang|bohr|nm|<bad unit>), getVdWChelpG, getVdWMK, getPolarizability
 //   element <Z> <symbol>       tools::Elements getters for that number / symbol
@@ -52,6 +57,11 @@
 #include <votca/csg/xyzreader.h>
 #include <votca/csg/xyzwriter.h>
 
+#include <votca/csg/beadlist.h>
+#include <votca/csg/interaction.h>
+
+#include "csg_boltzmann/bondedstatistics.h"
+#include "csg_boltzmann/tabulatedpotential.h"
 #include "modules/io/dlpolytrajectoryreader.h"
 #include "modules/io/dlpolytrajectorywriter.h"
 #include "modules/io/groreader.h"
@@ -211,6 +221,21 @@ static std::string elementsCall(Elements &el, const std::string &m, std::istring
   return o.str();
 }
 
+// a minimal QM-style atom / molecule for the generic-container overloads of the xyz/pdb classes
+struct QAtom {
+  QAtom(Index id, std::string element, Eigen::Vector3d pos) : id_(id), element_(std::move(element)), pos_(pos) {}
+  Index getId() const { return id_; }
+  std::string getElement() const { return element_; }
+  const Eigen::Vector3d &getPos() const { return pos_; }
+  Index id_;
+  std::string element_;
+  Eigen::Vector3d pos_;
+};
+struct QMol : std::vector<QAtom> {
+  std::string getType() const { return "MOL"; }
+  Index getId() const { return 1; }
+};
+
 struct NullBuf : std::streambuf {
   int overflow(int c) override { return c; }
 };
@@ -228,6 +253,9 @@ int main() {
   TopologyReader::RegisterPlugins();
 
   std::unique_ptr<Elements> hist;
+  std::unique_ptr<Topology> btop;
+  std::unique_ptr<BondedStatistics> bstat;
+  std::unique_ptr<TabulatedPotential> btab;
   std::string line;
   long seq = 0;
   while (std::getline(std::cin, line)) {
@@ -566,6 +594,73 @@ int main() {
         if (b->HasVel()) V("vel", b->getVel());
         if (b->HasF()) V("frc", b->getF());
         V("box", top.getBox().diagonal());
+      } else if (cmd == "xyzcw") {
+        std::string file;
+        double x, y, z;
+        in >> file >> x >> y >> z;
+        if (!in) throw std::runtime_error("driver: short xyzcw command");
+        QMol mol;
+        mol.push_back(QAtom(0, "C", Eigen::Vector3d(x, y, z)));
+        mol.push_back(QAtom(1, "H", Eigen::Vector3d(-2 * x, -2 * y, -2 * z)));
+        XYZWriter w;
+        w.Open(file + ".xyz", false);
+        w.Write(mol, "container frame");
+        w.Close();
+        PDBWriter pw;
+        pw.Open(file + ".pdb", false);
+        pw.WriteContainer(mol);
+        pw.Close();
+        out << "ok" << std::endl;
+      } else if (cmd == "xyzcr") {
+        std::string file;
+        in >> file;
+        QMol mol;
+        XYZReader r;
+        r.Open(file);
+        r.ReadFile(mol);
+        r.Close();
+        for (const QAtom &a : mol)
+          out << "gobs atoms " << a.getPos().x() << " " << a.getPos().y() << " " << a.getPos().z() << std::endl;
+        Topology top;
+        XYZReader r2;
+        r2.ReadTopology(file, top);
+        for (const Bead &b : top.Beads())
+          out << "gobs top " << b.getPos().x() << " " << b.getPos().y() << " " << b.getPos().z() << std::endl;
+      } else if (cmd == "boltznew") {
+        Index n1, n2;
+        in >> n1 >> n2;
+        if (!in) throw std::runtime_error("driver: short boltznew command");
+        btop.reset(new Topology());
+        btop->setBox(1000 * Eigen::Matrix3d::Identity());
+        btop->RegisterBeadType("A");
+        for (Index i = 0; i < n1 + n2; ++i) {
+          double len = i < n1 ? 1.0 : 2.0;
+          btop->CreateResidue("R");
+          Bead *a = btop->CreateBead(Bead::spherical, "A" + std::to_string(2 * i), "A", i, 1.0, 0.0);
+          Bead *b = btop->CreateBead(Bead::spherical, "A" + std::to_string(2 * i + 1), "A", i, 1.0, 0.0);
+          a->setPos(Eigen::Vector3d(5.0 * double(i), 0, 0));
+          b->setPos(Eigen::Vector3d(5.0 * double(i) + len, 0, 0));
+          auto bond = new IBond(2 * i, 2 * i + 1);
+          bond->setGroup("bond" + std::to_string(i));  // array names must be unique
+          btop->AddBondedInteraction(bond);
+        }
+        bstat.reset(new BondedStatistics());
+        bstat->BeginCG(btop.get(), nullptr);
+        bstat->EvalConfiguration(btop.get(), nullptr);
+        btab.reset(new TabulatedPotential());
+        out << "ok " << bstat->BondedValues().size() << std::endl;
+      } else if (cmd == "boltztab") {
+        if (!btab) throw std::runtime_error("driver: boltztab before boltznew");
+        std::string file, T, n;
+        in >> file >> T >> n;
+        if (!in) throw std::runtime_error("driver: short boltztab command");
+        for (std::vector<std::string> a : {std::vector<std::string>{"set", "T", T}, {"set", "n", n}, {"set", "scale", "no"},
+                                          {"set", "auto", "1"}, {file, "*"}}) {
+          btab->Command(*bstat, "tab", a);
+        }
+        std::ifstream fi(file);
+        double x, U, F;
+        while (fi >> x >> U >> F) out << "brow " << x << " " << U << " " << F << std::endl;
       } else if (cmd == "exprs") {
         // csg/src/csg_boltzmann/tabulatedpotential.cc: k_B T in kJ/mol
         out << "expr kB_times_ev2kj_per_mol " << conv::kB * conv::ev2kj_per_mol << std::endl;
